@@ -267,6 +267,16 @@ package parse
 //@   assert @store:F.sysl.%.Stmt [appended-at-end] len(stored) == len(target.Stmt) + 1 && stored[len(stored)-1] == stmt && forall(i, 0, len(target.Stmt), stored[i] == target.Stmt[i])
 //@   ensures [statement-appended] ghost("appended")
 
+// A collector's attributes reach every matching call of a block: each child statement of a compound statement (and of
+// every choice of an alternative) is searched, whether or not an earlier sibling already matched.
+//@ func applyAttributes
+//@   maypanic
+//@   ghostclear @iter:1 searched
+//@   ghostclear @iter:2 searched
+//@   ghostset @call:parse.applyAttributes searched
+//@   loop 1 step [every-statement-of-a-choice-is-searched] ghost("searched")
+//@   loop 2 step [every-child-statement-is-searched] ghost("searched")
+
 // Attribute maps are merged without sharing array attributes: an array that a map takes over from another map is a
 // new attribute with an element list of its own, so extending it later (a REST method adding to an attribute its path
 // declares) cannot reach the map it came from — the path itself, or the sibling methods that take it over next.
